@@ -82,7 +82,7 @@ def Step.respond (st : Step) : Bytes := st.body ++ NL :: st.q ++ st.t
 /-- reaction to a write; the state is the script still to come -/
 def scriptDev : List Step → Bytes → List Step × Bytes
   | [], _ => ([], [])
-  | st :: rest, b => if b = [NL] then (rest, st.respond) else (st :: rest, if st.echo then b else [])
+  | st :: rest, b => if b = [NL] ∨ b = [CR, NL] then (rest, st.respond) else (st :: rest, if st.echo then b else [])
 
 abbrev Ev := Bytes × Bytes × Bool
 
@@ -122,6 +122,17 @@ structure GoodStep (cfg : Cfg) (complete : List Bytes) (Pr Pc : Bytes → Bool) 
   t_hws : ∀ x ∈ st.t, isHws x = true
   fits_window : (st.q ++ st.t).length < cfg.depth
 
+/-- everything the device prints during an exchange inside the quantifier is plain (no CR, no ESC) -/
+theorem GoodStep.stepText_plain {cfg : Cfg} {complete : List Bytes} {Pr Pc : Bytes → Bool} {ev : Ev} {st : Step}
+    (hg : GoodStep cfg complete Pr Pc ev st) : Plain (stepText ev st) := by
+  unfold stepText Step.respond
+  have he : Plain (if st.echo then ev.1 else []) := by
+    split
+    · exact hg.plain
+    · exact ⟨by simp, by simp⟩
+  have := ((he.append hg.body_plain).append (nl_cons_plain hg.q_plain)).append (hws_plain hg.t_hws)
+  simpa [List.append_assoc] using this
+
 theorem hws_infix {b s : Bytes} (h : ∀ x ∈ b, isHws x = true) (hs : s <:+: b) : ∀ x ∈ s, isHws x = true :=
   fun x hx => h x (hs.subset hx)
 
@@ -130,16 +141,17 @@ theorem hws_infix {b s : Bytes} (h : ∀ x ∈ b, isHws x = true) (hs : s <:+: b
     prefix of the trailing blanks; the rest of the trailing blanks is all that stays unread; the
     input and one return were written; the done flag is the script's. -/
 theorem interactEvent_frames {cfg : Cfg} {complete : List Bytes} {Pr Pc : Bytes → Bool} {ev : Ev} {st : Step}
-    (hstrict : cfg.rough = false) (hret : cfg.ret = [NL])
+    (hstrict : cfg.rough = false) (hret : IsRet cfg.ret)
     (hg : GoodStep cfg complete Pr Pc ev st) (rest : List Step) (acc : Bytes)
     (w : Wire) (hres : ∀ x ∈ w.avail, isHws x = true) (hheld : w.held = []) :
     ∃ t' t'' cuts', t' ++ t'' = st.t ∧
       interactEvent cfg scriptDev complete ev acc (w, st :: rest) =
         some (acc ++ w.avail ++ (if st.echo then ev.1 else []) ++ st.body ++ NL :: st.q ++ t',
-              ({ avail := t'', cuts := cuts', writes := w.writes ++ [ev.1, [NL]] }, rest),
+              ({ avail := t'', cuts := cuts', writes := w.writes ++ [ev.1, cfg.ret] }, rest),
               st.ends complete) := by
   obtain ⟨input, resp, hidden⟩ := ev
-  have hinl : input ≠ [NL] := by intro e; exact hg.no_nl (by simp [e])
+  have hinl : ¬ (input = [NL] ∨ input = [CR, NL]) := by
+    intro e; rcases e with e | e <;> exact hg.no_nl (by simp [e])
   -- write the input
   have hw1 : Wire.write scriptDev (w, st :: rest) input =
       ({ w with avail := w.avail ++ (if st.echo then input else []), writes := w.writes ++ [input] },
@@ -186,10 +198,11 @@ theorem interactEvent_frames {cfg : Cfg} {complete : List Bytes} {Pr Pc : Bytes 
   -- phase 2: write the return, read up to the expected response or a completion pattern
   have hw2 : Wire.write scriptDev
       ({ avail := L ++ front (input, resp, hidden) st, cuts := cuts1, writes := w.writes ++ [input] },
-        st :: rest) [NL] =
+        st :: rest) cfg.ret =
       ({ avail := L ++ front (input, resp, hidden) st ++ st.respond, cuts := cuts1,
-         writes := w.writes ++ [input, [NL]] }, rest) := by
-    simp [Wire.write, scriptDev]
+         writes := w.writes ++ [input, cfg.ret] }, rest) := by
+    have hr : cfg.ret = [NL] ∨ cfg.ret = [CR, NL] := hret
+    simp [Wire.write, scriptDev, hr]
   have hav2 : L ++ front (input, resp, hidden) st ++ st.respond =
       (L ++ front (input, resp, hidden) st ++ st.body) ++ NL :: st.q ++ st.t := by
     simp [Step.respond, List.append_assoc]
@@ -218,7 +231,7 @@ theorem interactEvent_frames {cfg : Cfg} {complete : List Bytes} {Pr Pc : Bytes 
     readUntil_prompt (patOf (fun w => (resp :: complete).any (fun p => explicitSeen cfg p w))) cfg.depth
       (L ++ front (input, resp, hidden) st ++ st.body) st.q st.t
       { avail := L ++ front (input, resp, hidden) st ++ st.respond, cuts := cuts1,
-        writes := w.writes ++ [input, [NL]] }
+        writes := w.writes ++ [input, cfg.ret] }
       hav2 hpl2 rfl hS (hg.quiet L hL hLnl) hg.noEarly hok hg.q_nl (hws_noNL hg.t_hws) hg.q_ne hg.fits_window
   -- the done flag
   have htpre : t' <+: st.t := ⟨t'', htt⟩
@@ -251,7 +264,7 @@ theorem interactEvent_frames {cfg : Cfg} {complete : List Bytes} {Pr Pc : Bytes 
     cases complete.isEmpty <;> cases st.isResp <;> cases st.isComplete <;> rfl
   refine ⟨t', t'', cuts2, htt, ?_⟩
   unfold interactEvent
-  simp only [hw1, hret]
+  simp only [hw1]
   rw [hr1]
   simp only [hw2]
   rw [explicitAnySeen_eq, hru2]
@@ -271,6 +284,20 @@ def consumed (complete : List Bytes) : List (Ev × Step) → List (Ev × Step)
   | [] => []
   | p :: ps => if p.2.ends complete then [p] else p :: consumed complete ps
 
+theorem consumed_subset (complete : List Bytes) : ∀ (ps : List (Ev × Step)) (p : Ev × Step),
+    p ∈ consumed complete ps → p ∈ ps := by
+  intro ps
+  induction ps with
+  | nil => intro p h; simp [consumed] at h
+  | cons q qs ih =>
+    intro p h
+    unfold consumed at h
+    split at h
+    · simp at h; simp [h]
+    · rcases List.mem_cons.mp h with e | e
+      · simp [e]
+      · exact List.mem_cons_of_mem _ (ih p e)
+
 theorem consumed_length_le (complete : List Bytes) : ∀ (ps : List (Ev × Step)),
     (consumed complete ps).length ≤ ps.length := by
   intro ps
@@ -284,7 +311,7 @@ theorem consumed_length_le (complete : List Bytes) : ∀ (ps : List (Ev × Step)
     suffix of the last exchange's trailing blanks; each input was written once, followed by one
     return, and nothing was written after the exchange that ended the session. -/
 theorem interactLoop_frames {cfg : Cfg} {complete : List Bytes}
-    (hstrict : cfg.rough = false) (hret : cfg.ret = [NL]) :
+    (hstrict : cfg.rough = false) (hret : IsRet cfg.ret) :
     ∀ (ps : List (Ev × Step)) (extra : List Step) (acc : Bytes) (w : Wire),
       (∀ p ∈ ps, ∃ Pr Pc, GoodStep cfg complete Pr Pc p.1 p.2) →
       (∀ x ∈ w.avail, isHws x = true) → w.held = [] →
@@ -293,7 +320,7 @@ theorem interactLoop_frames {cfg : Cfg} {complete : List Bytes}
         raw ++ w'.avail = acc ++ w.avail ++ ((consumed complete ps).map (fun p => stepText p.1 p.2)).flatten ∧
         (∀ x ∈ w'.avail, isHws x = true) ∧
         (∀ p, (consumed complete ps).getLast? = some p → w'.avail <:+ p.2.t) ∧
-        w'.writes = w.writes ++ ((consumed complete ps).map (fun p => [p.1.1, [NL]])).flatten ∧
+        w'.writes = w.writes ++ ((consumed complete ps).map (fun p => [p.1.1, cfg.ret])).flatten ∧
         w'.held = [] := by
   intro ps
   induction ps with
@@ -310,7 +337,7 @@ theorem interactLoop_frames {cfg : Cfg} {complete : List Bytes}
       hg.t_hws x (by rw [← htt]; exact List.mem_append_right _ hx)
     by_cases hend : p.2.ends complete = true
     · refine ⟨acc ++ w.avail ++ (if p.2.echo then p.1.1 else []) ++ p.2.body ++ NL :: p.2.q ++ t',
-        { avail := t'', cuts := cuts', writes := w.writes ++ [p.1.1, [NL]] }, ?_, ?_, ht''hws, ?_, ?_, rfl⟩
+        { avail := t'', cuts := cuts', writes := w.writes ++ [p.1.1, cfg.ret] }, ?_, ?_, ht''hws, ?_, ?_, rfl⟩
       · simp only [List.map_cons, List.cons_append, interactLoop, hev, hend, ↓reduceIte, consumed,
           List.length_singleton, List.drop_succ_cons, List.drop_zero]
       · simp only [consumed, hend, ↓reduceIte, List.map_cons, List.map_nil, List.flatten_cons,
@@ -324,7 +351,7 @@ theorem interactLoop_frames {cfg : Cfg} {complete : List Bytes}
     · have hend' : p.2.ends complete = false := by simpa using hend
       obtain ⟨raw, w', hloop, hcons, hhws, hlast, hwr, hheld'⟩ :=
         ih extra (acc ++ w.avail ++ (if p.2.echo then p.1.1 else []) ++ p.2.body ++ NL :: p.2.q ++ t')
-          { avail := t'', cuts := cuts', writes := w.writes ++ [p.1.1, [NL]] }
+          { avail := t'', cuts := cuts', writes := w.writes ++ [p.1.1, cfg.ret] }
           (fun q hq => hgood q (List.mem_cons_of_mem _ hq)) ht''hws rfl
       refine ⟨raw, w', ?_, ?_, hhws, ?_, ?_, hheld'⟩
       · simp only [List.map_cons, List.cons_append, interactLoop, hev, hend', Bool.false_eq_true,
@@ -439,12 +466,25 @@ theorem trimLines_snoc_empty (l : List Bytes) : trimLines (l ++ [[]]) = trimLine
     simp [this]
   · simp
 
-/-- **what `_process_output` returns without prompt stripping, for ANY buffer** (return char `\n`):
+/-- **what `_process_output` returns without prompt stripping, for ANY CR-free buffer** (return char `\n` or `\r\n`):
     every line right-trimmed, leading and trailing empty lines dropped -/
-theorem processOutput_eq_normalize (cfg : Cfg) (hret : cfg.ret = [NL]) (b : Bytes) :
+theorem processOutput_eq_normalize (cfg : Cfg) (hret : IsRet cfg.ret) (b : Bytes) (hcr : CR ∉ b) :
     processOutput cfg b false = normalizeText b := by
   unfold processOutput normalizeText
-  simp only [Bool.false_eq_true, ↓reduceIte, hret]
+  simp only [Bool.false_eq_true, ↓reduceIte]
+  have hcr' : CR ∉ joinNL ((splitlines b).map rstrip) := by
+    intro hm
+    rcases mem_joinNL _ _ hm with e | ⟨l, hl, hc⟩
+    · exact absurd e (by decide)
+    · obtain ⟨a, ha, rfl⟩ := List.mem_map.mp hl
+      have : a ∈ splitNL b := by
+        unfold splitlines at ha
+        simp only at ha
+        split at ha
+        · exact (List.dropLast_prefix _).subset ha
+        · exact ha
+      exact hcr (splitNL_subset b a this CR (rstrip_subset hc))
+  rw [lstripChars_ret hret _ hcr']
   have hnl : ∀ l ∈ (splitlines b).map rstrip, NL ∉ l := by
     intro l hl
     obtain ⟨a, ha, rfl⟩ := List.mem_map.mp hl
